@@ -37,7 +37,7 @@ JAVA_CP = "/opt/veriftools/tla/tla2tools.jar:/opt/veriftools/tla/CommunityModule
 # types, E350 compound type, E390 nesting); everything else comes from later stages and is not judged here
 SYNTAX_CODES = {100, 300, 301, 302, 335, 343, 344, 346, 350, 390}
 LAYOUTS = {"quick": 2, "thorough": 3}
-MUTANTS = {"quick": 700, "thorough": 12000}
+MUTANTS = {"quick": 700, "thorough": 8000}
 PARALLEL_TLC = 5          # TLC runs of the fault family at a time, 2 workers each
 # every kind of syntax node (spec/PenneAst.tla) must occur in the modules whose faults are judged (vacuity guard)
 NODE_TAGS = {"module", "fn", "head", "const", "struct", "opaque struct", "word", "import", "param", "member", "prim", "named", "ptr", "view",
@@ -687,7 +687,7 @@ ALL_KINDS = set().union(*PROPERTY_KINDS.values())
 SOURCES = ["spec/SyntaxRules.tla", "spec/MC_SyntaxSeq.tla", "spec/MC_SyntaxGrammar.tla", "spec/Trace_Syntax.tla", "spec/PenneGrammar.tla",
            "spec/PenneAst.tla", "spec/MC_PenneGrammar.tla", "checks/syntax_part.py", "checks/syntax_cfgs.py", "checks/grammar_cfgs.py",
            "harness/src/bin/pvh_syntax.rs", "harness/src/syntax/observe.rs", "harness/src/grammar/render.rs",
-           "harness/src/grammar/alphaproj.rs", "harness/src/grammar/xml.rs", "harness/src/alpha.rs"]
+           "harness/src/grammar/alphaproj.rs", "harness/src/grammar/xml.rs", "harness/src/grammar/pstr.rs", "harness/src/alpha.rs"]
 
 
 def repo_state():
@@ -813,6 +813,14 @@ def store(d, path, prefix):
     return d
 
 
+def soft_baseline():
+    path = os.path.join(common.VERIF, "checks", "syntax_soft_baseline.json")
+    try:
+        return set(json.load(open(path))["shapes"])
+    except (OSError, ValueError, KeyError):
+        return set()
+
+
 def run_part(rep, tier, seed, selftest, parts=None, kinds=None):
     """Runs (or re-uses) the part and reports, through `rep`, the discrepancies that belong to rep.prop (PROPERTY_KINDS; `kinds`
     overrides).  parts: subset of {"seq", "faults", "corpus"}.  Returns coverage numbers for the evidence of the calling check:
@@ -833,8 +841,13 @@ def run_part(rep, tier, seed, selftest, parts=None, kinds=None):
             k = rep.match_known(kind, key)
             if k is not None:
                 rep.known_hits[k["id"]].extend([key] * (count - 1))
-    # soft observations: no property demands agreement there
+    # soft observations: no property demands agreement there.  Shapes not seen on the unchanged tree are named first.
     soft = collections.Counter()
+    baseline = soft_baseline()
+    new_shapes = sorted(k for k in d["notes"] if k.startswith("second generation") and k not in baseline)
+    for key in new_shapes[:3]:
+        rep.note_drift("syntax (soft) NEW shape, not in checks/syntax_soft_baseline.json: %s (%d inputs), e.g. %s" %
+                       (key, d["notes"][key], json.dumps(d["note_examples"].get(key, {}).get("source_tokens", ""))[:160]))
     for key, cnt in d["notes"].items():
         soft[re.sub(r": (expected|extension at) .*$", "", key)] += cnt
     for key, cnt in soft.most_common(6):
@@ -855,6 +868,7 @@ def run_part(rep, tier, seed, selftest, parts=None, kinds=None):
         "discrepancies_of_this_property": reported,
         "discrepancies_all_properties": len(d["findings"]),
         "soft_notes": dict(soft),
+        "soft_shapes_not_in_baseline": new_shapes,
         "selftests": cov.get("selftests", {}),
         "samples": [x for p in ("sequences", "faults", "corpus") for x in cov.get(p, {}).get("samples", [])][:6],
         "per_focus": cov.get("faults", {}).get("per_focus", {}),
